@@ -169,8 +169,8 @@ def If(c, a, b):
 
 
 def sqrt(x):
-    if is_sym(x):
-        return S.sqrt(x)
+    if is_sym(x) or (isinstance(x, (Fraction, int)) and not isinstance(x, bool) and S.ENGINE is not None):
+        return S.sqrt(x)            # exact rationals stay exact (prime-root symbols) in the symbolic run
     return math.sqrt(x)
 
 
